@@ -1,6 +1,8 @@
 package drivers
 
 import (
+	pb "github.com/evstack/ev-node/types/pb/evnode/v1"
+	"google.golang.org/protobuf/proto"
 	"time"
 	"strings"
 	"github.com/evstack/ev-node/block"
@@ -122,7 +124,52 @@ func (s *syncRun) forgeData(class string, h uint64) []byte {
 	return nil
 }
 
+// protoJunk returns well-formed protobuf messages of the wire types with parts missing or nonsensical
+// (what a third party can put on the DA layer at no cost): the decoders must refuse or survive them.
+func protoJunk(rng *mrand.Rand, genuine []byte) []byte {
+	var sh pb.SignedHeader
+	if proto.Unmarshal(genuine, &sh) != nil || sh.Header == nil {
+		return []byte{0x0a, 0x00}
+	}
+	mar := func(m proto.Message) []byte {
+		bz, err := proto.Marshal(m)
+		if err != nil {
+			return []byte{0x0a, 0x00}
+		}
+		return bz
+	}
+	switch rng.Intn(10) {
+	case 0:
+		return []byte{0x0a, 0x00} // an empty header sub-message and nothing else
+	case 1:
+		return mar(&pb.SignedHeader{Header: sh.Header, Signature: sh.Signature}) // no signer
+	case 2:
+		return mar(&pb.SignedHeader{Signature: sh.Signature, Signer: sh.Signer}) // no header
+	case 3:
+		return mar(&pb.SignedHeader{Header: sh.Header, Signature: sh.Signature, Signer: &pb.Signer{}}) // empty signer
+	case 4:
+		return mar(&pb.SignedHeader{Header: sh.Header, Signature: sh.Signature, Signer: &pb.Signer{Address: sh.Signer.GetAddress(), PubKey: []byte{1, 2, 3}}}) // unparsable key
+	case 5:
+		h := proto.Clone(sh.Header).(*pb.Header)
+		h.Version = nil
+		return mar(&pb.SignedHeader{Header: h, Signature: sh.Signature, Signer: sh.Signer})
+	case 6:
+		return mar(&pb.SignedData{Signature: sh.Signature, Signer: sh.Signer}) // signed data without data
+	case 7:
+		return mar(&pb.SignedData{Data: &pb.Data{Txs: [][]byte{[]byte("x")}}, Signature: sh.Signature}) // data without metadata and signer
+	case 8:
+		return mar(&pb.SignedData{Data: &pb.Data{Metadata: &pb.Metadata{ChainId: sh.Header.ChainId, Height: sh.Header.Height}}, Signer: &pb.Signer{}})
+	default:
+		h := proto.Clone(sh.Header).(*pb.Header)
+		h.ProposerAddress = nil
+		return mar(&pb.SignedHeader{Header: h, Signer: sh.Signer})
+	}
+}
+
 func junk(rng *mrand.Rand, genuine []byte) []byte {
+	if rng.Intn(3) == 0 {
+		return protoJunk(rng, genuine)
+	}
 	switch rng.Intn(6) {
 	case 0:
 		return []byte{}
@@ -240,7 +287,11 @@ func (s *syncRun) inject(class string, h uint64, via string, rng *mrand.Rand) {
 			s.c.Tr.Emit("Deliver", world.F{"node": "full", "kind": "hdr", "h": int(h), "via": "da", "dah": int(s.daH)})
 			s.placed[evKey("hdr", h)] = true
 		}
-		s.w.DA.Place(s.daH, blob)
+		if class == "A6" {
+			s.placeJunk(s.daH, blob)
+		} else {
+			s.w.DA.Place(s.daH, blob)
+		}
 		s.w.DA.SetCurrent(s.daH)
 		s.daH++
 		select {
